@@ -482,18 +482,35 @@ func main() {
 	fmt.Fprintf(&out, "/-- assignments to package-level variables inside function bodies, as func:var -/\ndef stackGlobalWrites : List String := [%s]\ndef internalGlobalWrites : List String := [%s]\n\n", quoteAll(st.globalWrites()), quoteAll(in.globalWrites()))
 
 	fmt.Fprintf(&out, "/-- functions containing a `go` statement -/\ndef stackGoStmts : List String := [%s]\ndef internalGoStmts : List String := [%s]\n\n", quoteAll(st.goStmts()), quoteAll(in.goStmts()))
+	// every function of the package is considered reachable from Aggregate /
+	// ToHTML / the console writers, except the ones that build or complete a
+	// snapshot while scanning (they mutate by design and are not called later):
+	// a new helper added to a merge or render path is therefore covered.
+	scanTime := map[string]bool{}
+	for _, n := range []string{"ScanSnapshot", "DefaultOpts", "Opts.isValid", "Snapshot.guessPaths", "Snapshot.augment", "Snapshot.findRoots",
+		"scanningState.scan", "parseFunc", "parseArgs", "parseFile", "isFramesElidedLine", "hasPrefix", "hasSrcPrefix", "getFiles", "splitPath", "isFile", "isRootedIn",
+		"gomodCache.isGoModule", "getGOPATHs", "atou", "trimLeftSpace", "trimCurlyBrackets", "unsafeString",
+		"reader.fill", "reader.buffered", "reader.readSlice", "reader.readLine",
+		"Func.Init", "Call.init", "Call.updateLocations", "Stack.updateLocations", "Signature.updateLocations", "nameArguments", "sortedByLen", "pathJoin",
+		"uint64Slice.Len", "uint64Slice.Swap", "uint64Slice.Less",
+		"cacheAST.augmentGoroutine", "cacheAST.loadFile", "lineToByteOffsets", "parsedFile.getFuncAST", "name", "fieldToType", "extractArgumentsType", "augmentCall",
+		"state.String", "Location.String"} {
+		scanTime[n] = true
+	}
 	stackFns := map[string]bool{}
-	for _, n := range []string{"Args.merge", "Call.merge", "Stack.merge", "Signature.merge", "Snapshot.Aggregate", "Args.walk", "Args.String", "Arg.String",
-		"Args.equal", "Args.similar", "Arg.equal", "Arg.similar", "Call.equal", "Call.similar", "Stack.equal", "Stack.similar", "Stack.less", "Signature.equal", "Signature.similar", "Signature.less", "Signature.SleepString",
-		"Aggregated.ToHTML", "Snapshot.ToHTML", "toHTML", "funcClass", "minus", "pkgURL", "srcURL", "escape", "getSrcBranchURL", "splitHost", "splitTag", "symbol", "Snapshot.IsRace", "Func.String"} {
-		stackFns[n] = true
+	for _, n := range st.funcNames() {
+		if !scanTime[n] {
+			stackFns[n] = true
+		}
 	}
 	internalFns := map[string]bool{}
-	for _, n := range []string{"writeBucketsToConsole", "writeGoroutinesToConsole", "pathFormat.formatCall", "pathFormat.createdByString", "calcBucketsLengths", "calcGoroutinesLengths",
-		"Palette.functionColor", "Palette.funcColor", "Palette.routineColor", "Palette.BucketHeader", "Palette.GoroutineHeader", "Palette.callLine", "Palette.StackLines"} {
-		internalFns[n] = true
+	for _, n := range in.funcNames() {
+		if n != "Main" && n != "process" && n != "processInner" && n != "toHTML" && n != "showBanner" {
+			internalFns[n] = true
+		}
 	}
-	fmt.Fprintf(&out, "/-- writes through anything but a plain local in the functions reachable from Aggregate / ToHTML / the console writers: func | expression | origin of the root variable -/\ndef stackWriteSet : List String := [%s]\ndef internalWriteSet : List String := [%s]\n\n", quoteAll(st.writeSet(stackFns)), quoteAll(in.writeSet(internalFns)))
+	fmt.Fprintf(&out, "/-- writes through anything but a plain local in the functions reachable from Aggregate / ToHTML / the console writers: func | expression | origin of the root variable -/\ndef stackWriteSet : List String := [%s]\ndef internalWriteSet : List String := [%s]\n", quoteAll(st.writeSet(stackFns)), quoteAll(in.writeSet(internalFns)))
+	fmt.Fprintf(&out, "/-- the same, reduced to what matters: (func | origin) of every write whose root is NOT a value created in that call -/\ndef stackNonFreshWrites : List String := [%s]\ndef internalNonFreshWrites : List String := [%s]\n\n", quoteAll(nonFresh(st.writeSet(stackFns))), quoteAll(nonFresh(in.writeSet(internalFns))))
 
 	webFacts(*repo)
 	templateFacts(*repo)
